@@ -1174,7 +1174,13 @@ class Network:
                 await self._event_bus.emit(
                     PeerInitializedEvent(connection, requested=True))
 
-                connection_future.set_result(connection)
+                if connection_future.done():
+                    # Whoever asked for this connection stopped waiting for it
+                    # (cancelled, timed out, other attempt won) while the
+                    # listeners were being notified
+                    await connection.disconnect(CloseReason.REQUESTED)
+                else:
+                    connection_future.set_result(connection)
 
         else:
             logger.warning(
